@@ -24,9 +24,11 @@ import (
 	"pgregory.net/rapid"
 
 	"verif/internal/azref"
+	"verif/internal/dmref"
 	"verif/internal/hx"
 	"verif/internal/imgx"
 	"verif/internal/onedx"
+	"verif/internal/qrref"
 )
 
 // ------------------------------------------------------------------ hints
@@ -537,6 +539,53 @@ func matrixFrom(spec string) *gozxing.BitMatrix {
 	}
 	rng := hx.NewRng(seed)
 	var bm *gozxing.BitMatrix
+	if strings.HasPrefix(kind, "frame:QR:") {
+		// a structurally valid QR symbol of any version / level / mask (function patterns, format and
+		// version information from the reference) whose codewords are random: the decoder gets past
+		// the format / version reading and the block splitting, Reed-Solomon then usually fails
+		var v, lv, mk int
+		fmt.Sscanf(kind[9:], "%d:%d:%d", &v, &lv, &mk)
+		if v < 1 || v > 40 {
+			v = 1
+		}
+		cw := make([]byte, qrref.TotalCodewords(v))
+		for i := range cw {
+			cw[i] = byte(rng.Intn(256))
+		}
+		m := qrref.Build(cw, v, lv%4, mk%8)
+		fm, _ := gozxing.NewBitMatrix(m.N, m.N)
+		for y := 0; y < m.N; y++ {
+			for x := 0; x < m.N; x++ {
+				if m.M[y][x] {
+					fm.Set(x, y)
+				}
+			}
+		}
+		if rng.Intn(5) == 0 {
+			fm = imgx.Transpose(fm)
+		}
+		return fm
+	}
+	if strings.HasPrefix(kind, "frame:DM:") {
+		// one of the 30 Data Matrix sizes with finder / clock borders from the reference and random codewords
+		var si int
+		fmt.Sscanf(kind[9:], "%d", &si)
+		a := dmref.Sizes[((si%len(dmref.Sizes))+len(dmref.Sizes))%len(dmref.Sizes)]
+		cw := make([]byte, a.Data+a.EC)
+		for i := range cw {
+			cw[i] = byte(rng.Intn(256))
+		}
+		cells := dmref.BuildSymbol(cw, a)
+		fm, _ := gozxing.NewBitMatrix(a.Cols, a.Rows)
+		for y := range cells {
+			for x := range cells[y] {
+				if cells[y][x] {
+					fm.Set(x, y)
+				}
+			}
+		}
+		return fm
+	}
 	if strings.HasPrefix(kind, "symbol:") {
 		switch kind[7:] {
 		case "QR":
@@ -1136,7 +1185,15 @@ func TestCheck(t *testing.T) {
 		})
 		// (ii) matrix-level decoders
 		genMatrix := func(t *rapid.T, symbol string) string {
-			kind := rapid.SampledFrom([]string{"noise", "noise", "ones", "zeros", "symbol:" + symbol, "symbol:" + symbol, "symbol:" + symbol}).Draw(t, "mkind")
+			kind := rapid.SampledFrom([]string{"noise", "noise", "ones", "zeros", "symbol:" + symbol, "symbol:" + symbol, "symbol:" + symbol, "frame", "frame"}).Draw(t, "mkind")
+			if kind == "frame" {
+				kind = "noise"
+				if symbol == "QR" {
+					kind = fmt.Sprintf("frame:QR:%d:%d:%d", rapid.IntRange(1, 40).Draw(t, "fv"), rapid.IntRange(0, 3).Draw(t, "fl"), rapid.IntRange(0, 7).Draw(t, "fm"))
+				} else if symbol == "DM" {
+					kind = fmt.Sprintf("frame:DM:%d", rapid.IntRange(0, 29).Draw(t, "fs"))
+				}
+			}
 			w, h := rapid.IntRange(1, 200).Draw(t, "mw"), rapid.IntRange(1, 200).Draw(t, "mh")
 			switch rapid.IntRange(0, 3).Draw(t, "shape") {
 			case 0:
@@ -1152,13 +1209,48 @@ func TestCheck(t *testing.T) {
 			}
 			return fmt.Sprintf("%d,%d,%s,%d", w, h, kind, rapid.Uint64().Draw(t, "mseed"))
 		}
+		// every (version, level) block layout is walked at least once: structurally valid symbols
+		// with random codewords
+		{
+			idx := 0
+			for v := 1; v <= 40; v++ {
+				for lv := 0; lv < 4; lv++ {
+					for rep := 0; rep < 2; rep++ {
+						idx++
+						if !c.Mine(idx) {
+							continue
+						}
+						cs := Case{Family: "qrmatrix", Matrix: fmt.Sprintf("0,0,frame:QR:%d:%d:%d,%d", v, lv, (v+lv+rep*3)%8, uint64(idx)*7919+uint64(c.P.Seed))}
+						c.Note("matrix_QR_all_versions_levels", fmt.Sprintf("level=%d", lv), true, hx.HashS("frame", cs.Matrix), func() any { return cs })
+						if !c.Enum("matrix_QR_all_versions_levels", "decode_total", cs, nil) {
+							break
+						}
+					}
+				}
+			}
+			c.SetExhaustive("matrix_QR_all_versions_levels", true)
+			for si := 0; si < 30; si++ {
+				for rep := 0; rep < 4; rep++ {
+					idx++
+					if !c.Mine(idx) {
+						continue
+					}
+					cs := Case{Family: "dmmatrix", Matrix: fmt.Sprintf("0,0,frame:DM:%d,%d", si, uint64(idx)*104729+uint64(c.P.Seed))}
+					c.Note("matrix_DM_all_sizes", "", true, hx.HashS("frame", cs.Matrix), func() any { return cs })
+					if !c.Enum("matrix_DM_all_sizes", "decode_total", cs, nil) {
+						break
+					}
+				}
+			}
+			c.SetExhaustive("matrix_DM_all_sizes", true)
+		}
 		run("matrix_QR", c.N(700, 24000), func(t *rapid.T) (Case, string) {
 			m := genMatrix(t, "QR")
-			return Case{Family: "qrmatrix", Matrix: m, Hints: genHints(t)}, "matrix=" + strings.Split(m, ",")[2]
+			return Case{Family: "qrmatrix", Matrix: m, Hints: genHints(t)}, "matrix=" + strings.SplitN(strings.Split(m, ",")[2], ":", 3)[0]
 		})
 		run("matrix_DM", c.N(700, 24000), func(t *rapid.T) (Case, string) {
 			m := genMatrix(t, "DM")
-			return Case{Family: "dmmatrix", Matrix: m}, "matrix=" + strings.Split(m, ",")[2]
+			return Case{Family: "dmmatrix", Matrix: m}, "matrix=" + strings.SplitN(strings.Split(m, ",")[2], ":", 3)[0]
 		})
 		run("matrix_AZTEC", c.N(500, 18000), func(t *rapid.T) (Case, string) {
 			compact := rapid.Bool().Draw(t, "compact")
